@@ -252,6 +252,14 @@ package types
 //@   modifies *buf
 //@   ensures valIdx(content(r)) == i
 
+// Verified aspect: what is handed to the hasher is a private copy, never the pooled buffer's own bytes
+// (the stack trie keeps the values it was given until Hash is called).
+//@ aspect func encodeForDerive(list DerivableList, i int, buf *bytes.Buffer) (r []byte)
+//@   for C13
+//@   requires buf != nil && list != nil
+//@   modifies *
+//@   ensures [privateCopy] len(r) == 0 || fresh(r)
+
 //@ func DeriveSha(list DerivableList, hasher TrieHasher) (r common.Hash)
 //@   for C13
 //@   modifies hasher.ins
@@ -484,6 +492,21 @@ package types
 //@ spec func voteSignContent(chainID string, v *Vote) Content = voteBytes(chainID, v.Type, v.Height, v.Round, v.Timestamp, content(v.BlockID.Hash), v.BlockID.PartsHeader.Total, content(v.BlockID.PartsHeader.Hash))
 
 // Evidence built from two conflicting votes: votes ordered by block-id key, powers taken from the set.
+// Duplicate-vote evidence on the wire: each field goes to the field of the same name, votes in order.
+//@ func (dve *DuplicateVoteEvidence) ToProto() (r *kproto.DuplicateVoteEvidence)
+//@   for C13 C19
+//@   requires dve != nil
+//@   modifies *
+//@   ensures [fieldsCopied] r != nil && r.TotalVotingPower == old(dve.TotalVotingPower) && r.ValidatorPower == old(dve.ValidatorPower) && r.Timestamp == old(dve.Timestamp)
+//@   atcall Vote.ToProto requires [bothVotes] vote == dve.VoteA || vote == dve.VoteB
+//@ func DuplicateVoteEvidenceFromProto(pb *kproto.DuplicateVoteEvidence) (r *DuplicateVoteEvidence, err error)
+//@   for C13 C19
+//@   modifies *
+//@   ensures [nilRejected] pb == nil ==> err != nil
+//@   ensures [fieldsCopied] err == nil ==> r != nil && r.TotalVotingPower == old(pb.TotalVotingPower) && r.ValidatorPower == old(pb.ValidatorPower) && r.Timestamp == old(pb.Timestamp)
+//@   atstore DuplicateVoteEvidence.VoteA requires [voteAFromVoteA] new == vA
+//@   atstore DuplicateVoteEvidence.VoteB requires [voteBFromVoteB] new == vB
+
 //@ func NewDuplicateVoteEvidence(vote1 *Vote, vote2 *Vote, blockTime time.Time, valSet *ValidatorSet) (r *DuplicateVoteEvidence)
 //@   for C19
 //@   uses strCmpOrder
@@ -528,6 +551,21 @@ package types
 //@ trusted func ValidatorSetFromProto(vp *kproto.ValidatorSet) (r *ValidatorSet, err error)
 //@   ensures err == nil ==> fresh(r) && len(r.Validators) == len(vp.Validators) && r.totalVotingPower == vp.TotalVotingPower && r.decodedFrom == vp
 //@   ensures err == nil ==> forall i int :: 0 <= i && i < len(r.Validators) ==> r.Validators[i] != nil && r.Validators[i].VotingPower == vp.Validators[i].VotingPower && r.Validators[i].ProposerPriority == vp.Validators[i].ProposerPriority
+
+// Verified aspect: the decoded proposer is the record's proposer (its power and priority), the members
+// are the record's members in order, the total is the record's total.
+//@ aspect func ValidatorSetFromProto(vp *kproto.ValidatorSet) (r *ValidatorSet, err error)
+//@   for C14
+//@   requires vp != nil ==> (forall i int :: 0 <= i && i < len(vp.Validators) ==> vp.Validators[i] != nil)
+//@   modifies *
+//@   opt assumecallreqs
+//@   ensures [nilRejected] vp == nil ==> err != nil
+//@   atstore ValidatorSet.Proposer requires [proposerIsTheRecordsProposer] vp.Proposer != nil ==> new != nil && new.VotingPower == vp.Proposer.VotingPower && new.ProposerPriority == vp.Proposer.ProposerPriority && (len(vp.Proposer.Address) == 20 ==> content(new.Address) == content(vp.Proposer.Address))
+//@   atstore ValidatorSet.totalVotingPower requires [totalIsTheRecordsTotal] new == vp.TotalVotingPower
+//@   atstore ValidatorSet.Validators requires [membersInRecordOrder] len(new) == len(vp.Validators) && (forall k int :: 0 <= k && k < len(new) ==> new[k] != nil && new[k].VotingPower == vp.Validators[k].VotingPower && new[k].ProposerPriority == vp.Validators[k].ProposerPriority)
+//@   loop 1:
+//@     invariant 0 <= i && i <= len(vp.Validators) && len(valsProto) == len(vp.Validators)
+//@     invariant forall k int :: 0 <= k && k < i ==> valsProto[k] != nil && valsProto[k].VotingPower == vp.Validators[k].VotingPower && valsProto[k].ProposerPriority == vp.Validators[k].ProposerPriority
 
 // Block hash accessors: they may fill the block's hash cache; nothing else that is modelled changes.
 //@ spec func blockHashOf(b *Block) common.Hash
@@ -963,3 +1001,21 @@ package types
 //@     invariant 0 <= iter && iter <= len(deletes)
 //@     invariant removedVotingPower == sumRemoved(deletes, vs.Validators, iter) && 0 <= removedVotingPower
 //@     invariant forall i int :: 0 <= i && i < iter ==> indexOf(vs.Validators, deletes[i].Address, len(vs.Validators)) >= 0
+
+// ---------------------------------------------------------------- C16: whole-input decoding, slim accounts
+// A transaction on the wire is exactly one RLP value: it is decoded with DecodeBytes, which rejects
+// trailing bytes (a stream decoder would accept enc(tx) || anything).
+//@ func DataFromProto(dp *kproto.Data) (r Transactions, err error)
+//@   for C16 C13
+//@   modifies *
+//@   atcall DecodeBytes requires [wholeInputIsTheTransaction] sameArray(b, dp.Txs[i]) && len(b) == len(dp.Txs[i]) && val != nil
+//@   ensures [nilRejected] dp == nil ==> err != nil
+//@   loop 1:
+//@     invariant 0 <= iter
+
+// The slim form drops exactly the two sentinel values (the empty root and the empty code hash): an
+// all-zero root is a value like any other and stays.
+//@ func SlimAccountRLP(account StateAccount) (r []byte)
+//@   for C16
+//@   modifies *
+//@   atcall EncodeToBytes requires [rootDroppedOnlyWhenEmptyRoot] dyntype(val) == typeid(SlimAccount) && unbox(val, SlimAccount).Nonce == account.Nonce && unbox(val, SlimAccount).Balance == account.Balance && (account.Root == EmptyRootHash ==> len(unbox(val, SlimAccount).Root) == 0) && (account.Root != EmptyRootHash ==> len(unbox(val, SlimAccount).Root) == 32 && content(unbox(val, SlimAccount).Root) == content(account.Root))
